@@ -53,7 +53,8 @@ fn device_vals2(a: u32, b: u32) -> (u16, [i8; 3]) {
 
 /// style: 0 = xAdv, 1 = xAdv+yPla | xPla, 2 = xAdv + Device, 3 = xAdv + VariationIndex (direct
 /// construction only), 4 = xAdv + Device | xPla + another Device (both value records carry their
-/// own, distinct device tables), 5 = xAdv + VariationIndex | xPla + Device (direct only).
+/// own, distinct device tables), 5 = xAdv + VariationIndex | xPla + Device (direct only),
+/// 6/7/8 = xAdv + value and Device in the xPlacement / yPlacement / yAdvance slot.
 /// Returns (expected pair, builder pair).
 pub fn rule_values(style: u8, a: u32, b: u32) -> ((RVal, RVal), (ValueRecordBuilder, ValueRecordBuilder)) {
     let adv = ((a * 7 + b) % 30000) as i16 + 1;
@@ -85,6 +86,21 @@ pub fn rule_values(style: u8, a: u32, b: u32) -> ((RVal, RVal), (ValueRecordBuil
             b2 = b2.with_x_placement(xp2).with_x_placement_device(wl::Device::new(st2, st2 + 2, &dv2));
             e2.v[0] = xp2;
             e2.dev[0] = Some(RDev::expected(st2, &dv2));
+        }
+        // 6 / 7 / 8: xAdv + a value AND its own Device in the xPlacement / yPlacement / yAdvance slot
+        // (style 2 has the Device in the xAdvance slot): every device slot occurs alone
+        6 | 7 | 8 => {
+            let slot = [0usize, 1, 3][style as usize - 6];
+            let (st, dv) = device_vals(a, b);
+            let dev = wl::Device::new(st, st + 2, &dv);
+            let val = -((a % 40) as i16) - 2;
+            b1 = match slot {
+                0 => b1.with_x_placement(val).with_x_placement_device(dev),
+                1 => b1.with_y_placement(val).with_y_placement_device(dev),
+                _ => b1.with_y_advance(val).with_y_advance_device(dev),
+            };
+            e1.v[slot] = val;
+            e1.dev[slot] = Some(RDev::expected(st, &dv));
         }
         _ => {}
     }
@@ -496,6 +512,70 @@ fn build_case(c: &Case) -> (w::PositionLookup, Expect) {
                 n += 1;
             }
             let subs = b.build(&mut vs);
+            (w::PositionLookup::Pair(wl::Lookup::new(wl::LookupFlag::empty(), subs)), Expect::Pair(m))
+        }
+        // one glyph-pair rule (10,20); a = mask1 | mask2 << 4: the set of device slots
+        // (bit 0 xPla, 1 yPla, 2 xAdv, 3 yAdv) carrying a device on value record 1 / 2;
+        // b = 0: Device via PairPosBuilder::insert_pair, 1: Device in a hand-built PairPosFormat1,
+        // 2: VariationIndex in a hand-built PairPosFormat1. In the hand-built variants only the even
+        // slots also carry a value (a record whose format is COMPUTED from device fields alone).
+        "device_slots" => {
+            let masks = [c.a & 15, (c.a >> 4) & 15];
+            let mut m = PairModel::default();
+            let mut exp = [RVal::default(), RVal::default()];
+            let mut bld = [ValueRecordBuilder::new(), ValueRecordBuilder::new()];
+            let mut dir = [w::ValueRecord::new(), w::ValueRecord::new()];
+            for r in 0..2usize {
+                for slot in 0..4usize {
+                    if masks[r] & (1 << slot) == 0 {
+                        continue;
+                    }
+                    let val = 10 * (r as i16 + 1) + slot as i16;
+                    let (st, dv) = device_vals(slot as u32, r as u32 + 7);
+                    let (o, i) = (slot as u16 + 1, 100 + 10 * r as u16 + slot as u16);
+                    let with_value = c.b == 0 || slot % 2 == 0;
+                    if with_value {
+                        exp[r].v[slot] = val;
+                    }
+                    exp[r].dev[slot] = Some(if c.b == 2 { RDev::VarIdx(o, i) } else { RDev::expected(st, &dv) });
+                    let dev = wl::Device::new(st, st + 2, &dv);
+                    let b0 = std::mem::take(&mut bld[r]);
+                    bld[r] = match slot {
+                        0 => b0.with_x_placement(val).with_x_placement_device(dev.clone()),
+                        1 => b0.with_y_placement(val).with_y_placement_device(dev.clone()),
+                        2 => b0.with_x_advance(val).with_x_advance_device(dev.clone()),
+                        _ => b0.with_y_advance(val).with_y_advance_device(dev.clone()),
+                    };
+                    let d: wl::DeviceOrVariationIndex = if c.b == 2 { wl::VariationIndex::new(o, i).into() } else { dev.into() };
+                    let mut d0 = std::mem::take(&mut dir[r]);
+                    if with_value {
+                        d0 = match slot {
+                            0 => d0.with_x_placement(val),
+                            1 => d0.with_y_placement(val),
+                            2 => d0.with_x_advance(val),
+                            _ => d0.with_y_advance(val),
+                        };
+                    }
+                    dir[r] = match slot {
+                        0 => d0.with_x_placement_device(d),
+                        1 => d0.with_y_placement_device(d),
+                        2 => d0.with_x_advance_device(d),
+                        _ => d0.with_y_advance_device(d),
+                    };
+                }
+            }
+            let [e1, e2] = exp;
+            m.add_glyph_rule(10, 20, (e1, e2));
+            let subs = if c.b == 0 {
+                let mut b = PairPosBuilder::default();
+                let [b1, b2] = bld;
+                b.insert_pair(gid(10), b1, gid(20), b2);
+                b.build(&mut vs)
+            } else {
+                let [w1, w2] = dir;
+                let cov: wl::CoverageTable = [gid(10)].into_iter().collect();
+                vec![w::PairPos::format_1(cov, vec![w::PairSet::new(vec![w::PairValueRecord::new(gid(20), w1, w2)])])]
+            };
             (w::PositionLookup::Pair(wl::Lookup::new(wl::LookupFlag::empty(), subs)), Expect::Pair(m))
         }
         // marks 30,31,33: absent / class "a" / class "b" (base 3); bases 40,42: subset of {a,b}
@@ -992,6 +1072,14 @@ pub fn part_b(run: &Run) {
         }
     }
     run_cases(run, &cases, "MarkToBaseBuilder: 3 marks x {absent,a,b} x 2 bases x subsets of {a,b} x 3 anchor styles");
+    // every subset of the 4 device slots on value record 1 x on value record 2 (not both empty)
+    let mut cases = vec![];
+    for masks in 1..256u64 {
+        for kind in 0..3 {
+            cases.push(Case::small("device_slots", masks, kind));
+        }
+    }
+    run_cases(run, &cases, "Device slots: one glyph-pair rule, every subset of the 4 device slots on record 1 x record 2 (255) x {Device via PairPosBuilder, Device hand-built, VariationIndex hand-built}; devices compared per slot");
     // device tables on every format boundary, through every builder entry point that takes a Device
     let mut cases = vec![];
     for i in 0..device_delta_sets().len() as u64 {
@@ -1013,8 +1101,9 @@ pub fn part_c(run: &Run) {
     // sweeps the compiled size across n x 64 KiB one record at a time
     let mut cases = vec![];
     let m = 100u64;
-    for style in 0..5u8 {
-        let rec = [4u64, 6, 6, 6, 10][style as usize]; // second glyph + value record 1 + value record 2
+    for style in [0u8, 1, 2, 3, 4, 6, 7, 8] {
+        // second glyph + value record 1 + value record 2
+        let rec = [4u64, 6, 6, 6, 10, 0, 8, 8, 8][style as usize];
         for splits in 1..=3u64 {
             // smallest k whose full table exceeds splits x 65536
             let mut k = 2;
@@ -1032,8 +1121,12 @@ pub fn part_c(run: &Run) {
                 if quick && cov != (style % 3) && !(splits == 1 && style == 0) && !(cov == 2 && style == 0) {
                     continue;
                 }
+                // the single-slot device styles: in quick only across the first split boundary
+                if quick && style >= 6 && splits > 1 {
+                    continue;
+                }
                 for filler in [0u8, 2] {
-                    if filler == 2 && (quick && cov != 0 || splits == 3) {
+                    if filler == 2 && (quick && (cov != 0 || style >= 6) || splits == 3) {
                         continue;
                     }
                     for last in &window {
@@ -1180,7 +1273,7 @@ pub fn part_c(run: &Run) {
     let outs = run_cases(run, &cases, "MarkBasePos with shared anchors (k single-mark classes x 500 bases; share pattern {all distinct, one anchor per base, pairwise, shared Device}; k swept one class at a time across the sub-table boundaries; a compile failure is a violation)");
     report_split_histogram(run, "mark_base_shared", &cases, &outs);
     run.bound("threshold_families", json!({
-        "pair1": "k first glyphs x 100 seconds, value styles {xAdv, xAdv+yPla|xPla, xAdv+Device, xAdv+VariationIndex(direct), xAdv+Device|xPla+Device}, coverage styles {contiguous, alternate, runs}, last pair set swept (quick: crossing +-3 records; thorough: 0..=100), k at 1x/2x/3x 64 KiB, with 0 or 2 filler lookups",
+        "pair1": "k first glyphs x 100 seconds, value styles {xAdv, xAdv+yPla|xPla, xAdv+Device, xAdv+VariationIndex(direct), xAdv+Device|xPla+Device, xAdv + Device alone in the xPla / yPla / yAdv slot}, coverage styles {contiguous, alternate, runs}, last pair set swept (quick: crossing +-3 records; thorough: 0..=100), k at 1x/2x/3x 64 KiB, with 0 or 2 filler lookups",
         "pair2": "k x 51 singleton classes, k within +-3 (quick) / +-12 (thorough) of the first k giving 2, 3, 4 sub-tables; 5 value styles incl. two where both value records of every Class2Record have their own distinct Device / VariationIndex tables (one by direct construction); 0 or 2 filler lookups",
         "mark_base_shared": "k single-mark classes x 500 bases (so that the shared anchor bytes exceed the slack of a sub-table), base anchors shared across mark classes: patterns {all distinct, one anchor per base, pairwise shared, shared Device}; k within +-3 (quick) / +-10 (thorough) of the first k giving 2, 3 (thorough 4) sub-tables; PackingFailed is a violation",
         "mark_base": "k single-mark classes x 200 bases, k within +-3 (quick) / +-10 (thorough) of the first k giving 2, 3, 4 sub-tables; 3 anchor styles; 0 or 2 filler lookups",
